@@ -96,9 +96,9 @@ class ConvKind(Kind):
         if thorough:
             ns, bss, steps = range(1, 31), list(range(1, 13)) + [40], list(range(1, 33)) + [50]
         else:
-            ns = [1, 2, 3, 4, 5, 7, 8, 12, 13, 24, 29, 30]
+            ns = [1, 2, 3, 5, 7, 8, 12, 13, 24, 30]
             bss = [1, 2, 3, 4, 5, 7, 8, 12, 40]
-            steps = [1, 2, 3, 4, 5, 6, 7, 8, 10, 12, 13, 16, 24, 25, 31, 32, 50]
+            steps = [1, 2, 3, 4, 5, 6, 7, 8, 10, 12, 13, 16, 25, 32, 50]
         for n in ns:
             for bs in bss:
                 for st in steps:
@@ -114,7 +114,7 @@ class ConvKind(Kind):
                     for st in steps2:
                         yield mk(cls, st, [(n, bs)], seed=1)
         # 1-3 successive runs, batch size changing between runs
-        nseq = 320 if not thorough else 4000
+        nseq = 300 if not thorough else 4000
         for _ in range(nseq):
             cls = rng.choice(ATTACKS)
             k = rng.choice([2, 2, 3])
